@@ -22,6 +22,11 @@ var props = map[string]*PropCheck{}
 func register(pc *PropCheck) { props[pc.ID] = pc }
 
 func main() {
+	// go/packages resolves the go command through this process's PATH
+	os.Setenv("PATH", "/opt/veriftools/go1.26.8/bin:"+os.Getenv("PATH"))
+	os.Setenv("GOTOOLCHAIN", "local")
+	os.Unsetenv("GOOS")
+	os.Unsetenv("GOARCH")
 	if len(os.Args) < 2 {
 		usage()
 	}
